@@ -37,8 +37,8 @@ _REAL = None
 class CZ(decio.Concretiser):
     """adds int ids (k*), jetset module words, real-particle names (R*), float-only literals"""
 
-    def __init__(self, rng, base=None, conj_matters=False):
-        super().__init__(rng, base=base, conj_matters=conj_matters)
+    def __init__(self, rng, base=None, conj_matters=False, vocab=None):
+        super().__init__(rng, base=base, conj_matters=conj_matters, vocab=vocab)
         self.ints = {}
         self.uints = {}
         global _REAL
@@ -51,8 +51,9 @@ class CZ(decio.Concretiser):
             # identifies the particle it was taken from
             from particle import Particle
             used = getattr(self, "_widths", set())
+            rr = self._r("real", a)
             for _ in range(1000):
-                w = self._pick(_REAL)
+                w = self._pick(_REAL, rr)
                 width = Particle.from_evtgen_name(w).width
                 lit_vals = {float(decio.lit_value(x)) for x in decio.LITERAL_SPELLINGS}
                 if width not in used and width > 0 and width / 1000.0 not in lit_vals and -width / 1000.0 not in lit_vals:
@@ -65,8 +66,9 @@ class CZ(decio.Concretiser):
     def lit(self, a):
         if a not in self.lits:
             vals = {decio.lit_value(s) for s in self.lits.values()}
+            r = self._r("lit", a)
             for _ in range(1000):
-                s = self.rng.choice(FLOAT_ONLY)
+                s = r.choice(FLOAT_ONLY)
                 v = decio.lit_value(s)
                 if v not in vals and -v not in vals and v != 0:
                     break
@@ -151,7 +153,8 @@ def build(args):
     from decaylanguage.dec.enums import PhotosEnum
     from particle import Particle
     rng = random.Random(seed)
-    cz = CZ(rng)
+    # every other file shares its vocabulary with its neighbours (see decio.Concretiser)
+    cz = CZ(rng, vocab=f"{seed - cid}/{cid // 64}" if cid % 2 == 1 else None)
     text = "\n".join(render(cz, s) for s in src) + "\n"
     p, err, _ = decio.parse_text(text)
     if p is None:
